@@ -92,6 +92,92 @@ theorem lookupInZone_iff (d : Desc) (h : WFR d) (inst : Inst) (hi : inst ∈ d) 
       ⟨hm, by simp, (isSucc_congr (mem_filter_zone_fst d inst.zone) k t).mpr hsucc⟩
     rw [this]; rfl
 
+/-! ### `ringInstanceByToken` lookups never fail -/
+
+theorem mapM_option_some {α β γ} (f : β → Option γ) (k : α → β) (h : α → γ) : ∀ (L : List α),
+    (∀ p ∈ L, f (k p) = some (h p)) → (L.map k).mapM f = some (L.map h)
+  | [], _ => rfl
+  | a :: L, hL => by
+    rw [List.map_cons, List.mapM_cons, hL a (by simp),
+      mapM_option_some f k h L (fun p hp => hL p (by simp [hp]))]
+    rfl
+
+theorem mapM_option_isSome {β γ} (f : β → Option γ) : ∀ (l : List β), (∀ x ∈ l, (f x).isSome) → (l.mapM f).isSome
+  | [], _ => rfl
+  | a :: l, hl => by
+    rw [List.mapM_cons]
+    have ha := hl a (by simp)
+    have ih := mapM_option_isSome f l (fun x hx => hl x (by simp [hx]))
+    cases hfa : f a with
+    | none => rw [hfa] at ha; cases ha
+    | some b =>
+      cases hm : l.mapM f with
+      | none => rw [hm] at ih; cases ih
+      | some bs => rfl
+
+/-- a registered token always has an entry (no well-formedness needed) -/
+theorem instanceByToken_isSome (d : Desc) (i : Inst) (t : Nat) (hi : i ∈ d) (ht : t ∈ i.tokens) :
+    (instanceByToken d t).isSome := by
+  unfold instanceByToken
+  cases hf : d.find? (fun i => i.tokens.contains t) with
+  | some _ => rfl
+  | none =>
+    have := List.find?_eq_none.mp hf i hi
+    simp [ht] at this
+
+/-- … and in a ring where no token is registered twice it is the registering instance -/
+theorem instanceByToken_eq (d : Desc) (hn : (d.flatMap (·.tokens)).Nodup) (i : Inst) (t : Nat) (hi : i ∈ d)
+    (ht : t ∈ i.tokens) : instanceByToken d t = some i := by
+  unfold instanceByToken
+  cases hf : d.find? (fun i => i.tokens.contains t) with
+  | none =>
+    have := List.find?_eq_none.mp hf i hi
+    simp [ht] at this
+  | some j =>
+    have hj : j ∈ d := List.mem_of_find?_eq_some hf
+    have hjt : t ∈ j.tokens := by simpa using List.find?_some hf
+    rw [owner_unique (·.tokens) d hn j hj i hi t hjt ht]
+
+theorem zoneFlagsOf_eq (d : Desc) (hn : (d.flatMap (·.tokens)).Nodup) (zone id : String) :
+    zoneFlagsOf d ((zoneTokens d zone).map (·.1)) id = some (zoneFlags d zone id) := by
+  unfold zoneFlagsOf zoneFlags
+  apply mapM_option_some
+  intro p hp
+  obtain ⟨t, i⟩ := p
+  have := (mem_zoneTokens d zone t i).mp hp
+  rw [instanceByToken_eq d hn i t this.1 this.2.2]; rfl
+
+/-- **no `ErrInconsistentTokensInfo`**: for EVERY descriptor, configuration and instance id the token lookups
+of `GetTokenRangesForInstance` succeed (the zone's token list and `ringInstanceByToken` are built from the
+same descriptor). -/
+theorem rangesForInstanceWith_consistent (walk : List (Nat × Bool) → List Nat) (d : Desc) (za : Bool) (rf : Nat)
+    (id : String) : rangesForInstanceWith walk d za rf id ≠ .error .inconsistent ∧
+      rangesForInstanceWith walk d za rf id ≠ .error .panic := by
+  unfold rangesForInstanceWith
+  cases d.get? id with
+  | none => simp
+  | some inst =>
+    simp only
+    split
+    · simp
+    · split
+      · simp
+      · split
+        · simp
+        · have hsome : (zoneFlagsOf d ((zoneTokens d inst.zone).map (·.1)) id).isSome := by
+            unfold zoneFlagsOf
+            apply mapM_option_isSome
+            intro t ht
+            obtain ⟨⟨t', i⟩, hp, rfl⟩ := List.mem_map.mp ht
+            have := (mem_zoneTokens d inst.zone t' i).mp hp
+            have h2 := instanceByToken_isSome d i t' this.1 this.2.2
+            cases hb : instanceByToken d t' with
+            | none => rw [hb] at h2; cases h2
+            | some _ => rfl
+          cases hz : zoneFlagsOf d ((zoneTokens d inst.zone).map (·.1)) id with
+          | none => rw [hz] at hsome; cases hsome
+          | some zt => simp
+
 /-- `GetTokenRangesForInstance` on a well-formed zone-aware ring with `rf = #zones`, for any walk
 that is exact on the zone's flag list. -/
 theorem rangesForInstanceWith_exact (walk : List (Nat × Bool) → List Nat) (d : Desc) (h : WFR d) (inst : Inst)
@@ -107,8 +193,9 @@ theorem rangesForInstanceWith_exact (walk : List (Nat × Bool) → List Nat) (d 
     | nil => exact absurd hzt hne
     | cons _ _ => rfl
   refine ⟨walk (zoneFlags d inst.zone inst.id), ?_, ?_⟩
-  · simp only [rangesForInstanceWith, hget, hz', hne']
-    simp [zoneFlags]
+  · have hne2 : ((zoneTokens d inst.zone).map (·.1)).isEmpty = false := by simpa using hne'
+    simp only [rangesForInstanceWith, hget, hz', hne2, zoneFlagsOf_eq d h.unique]
+    simp
   · intro k hk
     rw [hwalk k hk, lookupInZone_iff d h inst hi k]
     have hcongr : ∀ u, u ∈ (zoneFlags d inst.zone inst.id).map (·.1) ↔ u ∈ zoneToks d inst.zone := by
